@@ -467,7 +467,7 @@ func (w *world) body(s *stepSpec, subSeq int) string {
 	case packet.ConnectionCodeActivate:
 		m["code"] = w.objID(s.Cmd, s.Obj)
 		if s.Valid {
-			m["listen_address"] = fmt.Sprintf("127.0.0.1:%d", 20000+subSeq)
+			m["listen_address"] = fmt.Sprintf("127.0.0.1:%d", 20000+subSeq%40000)
 		}
 	case packet.TunnelTrafficReport:
 		m["mapping_id"] = w.objID(s.Cmd, s.Obj)
